@@ -86,7 +86,7 @@ impl<'a> World<'a> {
         };
         let in_use = self.dslots.iter().any(|s| s.cur.as_ref().map_or(false, |(_, d)| d.vol == vh.vol)) || self.fslots.iter().any(|s| s.cur.as_ref().map_or(false, |(_, f)| f.vol == vh.vol));
         // the drop flavour swallows the refusal; only use it when the close must succeed
-        let fl = if in_use && fl == 2 { 1 } else { fl };
+        let fl = if (in_use || self.faulty) && fl == 2 { 1 } else { fl };
         let r = got(self.call(|fs| fs.close_volume(h, fl)));
         let n = r.name();
         let ok = self.judge(opk, if in_use { "in-use" } else { "idle" }, n, "", !in_use, if in_use { &["VolumeStillInUse"] } else { &[] });
